@@ -209,5 +209,5 @@ HARNESS h_prolog_a64_kf_C07C() { run<K_C07C, CallConvId::kCDecl, false, true>();
 HARNESS h_prolog_a64_kf_C07D() { run<K_C07D, CallConvId::kCDecl, false, true>(); }
 HARNESS h_prolog_a64_aapcs() { run<K_NONE, CallConvId::kCDecl, false, false>(); }
 HARNESS h_prolog_a64_apple() { run<K_NONE, CallConvId::kCDecl, true, false>(); }
-HARNESS h_prolog_a64_light() { run<K_NONE, CallConvId::kLightCall2, false, false>(); }
-HARNESS h_prolog_a64_kf_C07E() { run<K_C07E, CallConvId::kLightCall2, false, false>(); }
+HARNESS h_prolog_a64_light_small() { run<K_NONE, CallConvId::kLightCall2, false, true>(); }
+HARNESS h_prolog_a64_kf_C07E() { run<K_C07E, CallConvId::kLightCall2, false, true>(); }
